@@ -27,6 +27,68 @@ type Config struct {
 	SyncImport    string   // import path of vsync (replaces "sync")
 	StmtPoints    []string // functions ("Type.method" or "func") whose statements each get a point
 	AtomicRanges  []string // functions whose range loops are made atomic (random map iteration order)
+	// AccessFields: names of struct fields whose every access is reported to the happens-before race monitor
+	// (vsched.R / vsched.W around the selector expression); HB: channel operations publish / import clocks.
+	AccessFields map[string]bool
+	HB           bool
+}
+
+// CollectFields returns the field names of the given struct types declared in the given sources, minus the names
+// that are also methods of any type (x.name would be ambiguous without type information) and minus fields of
+// synchronisation types.
+func CollectFields(sources map[string][]byte, types []string) (map[string]bool, error) {
+	fields := map[string]bool{}
+	methods := map[string]bool{}
+	want := map[string]bool{}
+	for _, t := range types {
+		want[t] = true
+	}
+	for name, src := range sources {
+		fset := token.NewFileSet()
+		f, err := parser.ParseFile(fset, name, src, parser.SkipObjectResolution)
+		if err != nil {
+			return nil, err
+		}
+		for _, d := range f.Decls {
+			switch x := d.(type) {
+			case *ast.FuncDecl:
+				if x.Recv != nil {
+					methods[x.Name.Name] = true
+				}
+			case *ast.GenDecl:
+				for _, sp := range x.Specs {
+					ts, ok := sp.(*ast.TypeSpec)
+					if !ok {
+						continue
+					}
+					if it, ok := ts.Type.(*ast.InterfaceType); ok {
+						for _, m := range it.Methods.List {
+							for _, n := range m.Names {
+								methods[n.Name] = true
+							}
+						}
+					}
+					st, ok := ts.Type.(*ast.StructType)
+					if !ok || !(want[ts.Name.Name] || want["*"]) {
+						continue
+					}
+					for _, fl := range st.Fields.List {
+						typ := string(src[fset.Position(fl.Type.Pos()).Offset:fset.Position(fl.Type.End()).Offset])
+						if strings.Contains(typ, "sync.") || strings.HasPrefix(typ, "func(") {
+							continue
+						}
+						for _, n := range fl.Names {
+							fields[n.Name] = true
+						}
+					}
+				}
+			}
+		}
+	}
+	for m := range methods {
+		delete(fields, m)
+	}
+	return fields, nil
 }
 
 type rw struct {
@@ -35,9 +97,12 @@ type rw struct {
 	src      []byte
 	file     *ast.File
 	base     string
-	inList   map[ast.Stmt]bool // statement is a member of a statement list
-	pointed  map[ast.Stmt]bool // statement gets a statement-level point
-	atomicFn map[ast.Node]bool // range statements to wrap
+	inList   map[ast.Stmt]bool          // statement is a member of a statement list
+	pointed  map[ast.Stmt]bool          // statement gets a statement-level point
+	atomicFn map[ast.Node]bool          // range statements to wrap
+	accSel   map[*ast.SelectorExpr]byte // monitored field access: 'r' or 'w'
+	imports  map[string]bool            // names of imported packages
+	curFunc  map[ast.Node]string        // selector -> enclosing function name
 	labelOf  map[ast.Stmt]*ast.LabeledStmt
 	err      error
 	changed  bool
@@ -52,7 +117,8 @@ func Rewrite(filename string, src []byte, cfg Config) ([]byte, bool, error) {
 		return nil, false, err
 	}
 	r := &rw{cfg: cfg, fset: fset, src: src, file: f, base: filepath.Base(filename),
-		inList: map[ast.Stmt]bool{}, pointed: map[ast.Stmt]bool{}, atomicFn: map[ast.Node]bool{}, labelOf: map[ast.Stmt]*ast.LabeledStmt{}}
+		inList: map[ast.Stmt]bool{}, pointed: map[ast.Stmt]bool{}, atomicFn: map[ast.Node]bool{}, labelOf: map[ast.Stmt]*ast.LabeledStmt{},
+		accSel: map[*ast.SelectorExpr]byte{}, imports: map[string]bool{}, curFunc: map[ast.Node]string{}}
 	r.prepare()
 	var out bytes.Buffer
 	// package clause and everything up to the first declaration is copied; imports are regenerated
@@ -178,6 +244,9 @@ func (r *rw) prepare() {
 		}
 		name := funcName(fd)
 		markLists(fd.Body, contains(r.cfg.StmtPoints, name))
+		if len(r.cfg.AccessFields) > 0 {
+			r.markAccesses(fd.Body, name)
+		}
 		if contains(r.cfg.AtomicRanges, name) {
 			ast.Inspect(fd.Body, func(n ast.Node) bool {
 				if rs, ok := n.(*ast.RangeStmt); ok {
@@ -187,6 +256,82 @@ func (r *rw) prepare() {
 			})
 		}
 	}
+}
+
+func unparen(e ast.Expr) ast.Expr {
+	for {
+		p, ok := e.(*ast.ParenExpr)
+		if !ok {
+			return e
+		}
+		e = p.X
+	}
+}
+
+// markAccesses finds the selector expressions x.f with f a monitored field and classifies them as read or write.
+func (r *rw) markAccesses(body ast.Node, fn string) {
+	if len(r.imports) == 0 {
+		for _, imp := range r.file.Imports {
+			p, _ := strconv.Unquote(imp.Path.Value)
+			name := p[strings.LastIndexByte(p, '/')+1:]
+			if imp.Name != nil {
+				name = imp.Name.Name
+			}
+			r.imports[name] = true
+			// module paths ending in a major version ("/v2") are imported under the previous element
+			if strings.HasPrefix(name, "v") && len(name) <= 3 {
+				q := strings.TrimSuffix(p, "/"+name)
+				r.imports[q[strings.LastIndexByte(q, '/')+1:]] = true
+			}
+		}
+	}
+	skip := map[*ast.SelectorExpr]bool{}
+	write := map[*ast.SelectorExpr]bool{}
+	lhs := func(e ast.Expr) {
+		e = unparen(e)
+		if ix, ok := e.(*ast.IndexExpr); ok {
+			e = unparen(ix.X) // x.f[k] = v counts as a write of x.f
+		}
+		if se, ok := e.(*ast.SelectorExpr); ok {
+			write[se] = true
+		}
+	}
+	ast.Inspect(body, func(n ast.Node) bool {
+		switch x := n.(type) {
+		case *ast.AssignStmt:
+			if x.Tok != token.DEFINE {
+				for _, l := range x.Lhs {
+					lhs(l)
+				}
+			}
+		case *ast.IncDecStmt:
+			lhs(x.X)
+		case *ast.CallExpr:
+			if se, ok := unparen(x.Fun).(*ast.SelectorExpr); ok {
+				skip[se] = true // method call or call of a function-typed field
+			}
+			if id, ok := x.Fun.(*ast.Ident); ok && id.Name == "delete" && len(x.Args) == 2 {
+				lhs(x.Args[0])
+			}
+		}
+		return true
+	})
+	ast.Inspect(body, func(n ast.Node) bool {
+		se, ok := n.(*ast.SelectorExpr)
+		if !ok || skip[se] || !r.cfg.AccessFields[se.Sel.Name] {
+			return true
+		}
+		if id, ok := se.X.(*ast.Ident); ok && r.imports[id.Name] {
+			return true // package-qualified identifier
+		}
+		if write[se] {
+			r.accSel[se] = 'w'
+		} else {
+			r.accSel[se] = 'r'
+		}
+		r.curFunc[se] = fn
+		return true
+	})
 }
 
 func (r *rw) fail(n ast.Node, format string, a ...any) {
@@ -274,6 +419,10 @@ func (r *rw) needs(n ast.Node) bool {
 		if _, ok := x.Stmt.(*ast.SelectStmt); ok {
 			return true
 		}
+	case *ast.SelectorExpr:
+		if r.accSel[x] != 0 {
+			return true
+		}
 	}
 	if s, ok := n.(ast.Stmt); ok && r.pointed[s] {
 		return true
@@ -347,6 +496,14 @@ func (r *rw) rewrite(n ast.Node) string {
 		return "vsched.Yield(" + q("stmt "+r.site(n)) + "); " + inner
 	}
 	switch x := n.(type) {
+	case *ast.SelectorExpr:
+		fn := "R"
+		if r.accSel[x] == 'w' {
+			fn = "W"
+		}
+		site := r.curFunc[x] + " " + x.Sel.Name + " " + r.site(x)
+		return "(*vsched." + fn + "(&" + r.emit(x.X) + "." + x.Sel.Name + ", " + q(site) + "))"
+
 	case *ast.GoStmt:
 		r.requireList(x)
 		if fl, ok := x.Call.Fun.(*ast.FuncLit); ok && len(x.Call.Args) == 0 {
@@ -372,6 +529,10 @@ func (r *rw) rewrite(n ast.Node) string {
 		r.requireList(x)
 		s := q("send " + r.site(x))
 		tk := r.newTmp("t")
+		if r.cfg.HB {
+			ch := r.newTmp("c")
+			return tk + " := vsched.Pre(" + s + "); " + ch + " := " + r.emit(x.Chan) + "; vsched.HBRelease(" + ch + "); " + ch + " <- " + r.emit(x.Value) + "; vsched.Post(" + tk + ", " + s + ")"
+		}
 		return tk + " := vsched.Pre(" + s + "); " + r.emitChildren(x) + "; vsched.Post(" + tk + ", " + s + ")"
 
 	case *ast.ExprStmt:
@@ -379,10 +540,20 @@ func (r *rw) rewrite(n ast.Node) string {
 			r.requireList(x)
 			s := q("recv " + r.site(x))
 			tk := r.newTmp("t")
+			if r.cfg.HB {
+				u, _ := isRecv(x.X)
+				ch := r.newTmp("c")
+				return tk + " := vsched.Pre(" + s + "); " + ch + " := " + r.emit(u.X) + "; <-" + ch + "; vsched.Post(" + tk + ", " + s + "); vsched.HBAcquire(" + ch + ")"
+			}
 			return tk + " := vsched.Pre(" + s + "); " + r.recvText(x.X) + "; vsched.Post(" + tk + ", " + s + ")"
 		}
 		if isCallTo(x.X, "", "close") {
 			r.requireList(x)
+			if r.cfg.HB {
+				c := x.X.(*ast.CallExpr)
+				ch := r.newTmp("c")
+				return "vsched.Yield(" + q("close "+r.site(x)) + "); " + ch + " := " + r.emit(c.Args[0]) + "; vsched.HBRelease(" + ch + "); close(" + ch + ")"
+			}
 			return "vsched.Yield(" + q("close "+r.site(x)) + "); " + r.emitChildren(x)
 		}
 		if isCallTo(x.X, "time", "Sleep") {
@@ -399,9 +570,17 @@ func (r *rw) rewrite(n ast.Node) string {
 			lhs = append(lhs, r.emit(l))
 		}
 		tk := r.newTmp("t")
+		if r.cfg.HB {
+			u, _ := isRecv(x.Rhs[0])
+			ch := r.newTmp("c")
+			return tk + " := vsched.Pre(" + s + "); " + ch + " := " + r.emit(u.X) + "; " + strings.Join(lhs, ", ") + " " + x.Tok.String() + " <-" + ch + "; vsched.Post(" + tk + ", " + s + "); vsched.HBAcquire(" + ch + ")"
+		}
 		return tk + " := vsched.Pre(" + s + "); " + strings.Join(lhs, ", ") + " " + x.Tok.String() + " " + r.recvText(x.Rhs[0]) + "; vsched.Post(" + tk + ", " + s + ")"
 
 	case *ast.DeferStmt:
+		if r.cfg.HB {
+			return "defer func() { vsched.Yield(" + q("close "+r.site(x)) + "); vsched.HBRelease(" + r.emit(x.Call.Args[0]) + "); " + r.emitChildren(x.Call) + " }()"
+		}
 		return "defer func() { vsched.Yield(" + q("close "+r.site(x)) + "); " + r.emitChildren(x.Call) + " }()"
 
 	case *ast.CallExpr: // context.WithCancel
@@ -441,6 +620,7 @@ func (r *rw) recvText(e ast.Expr) string {
 
 type commCase struct {
 	chanExpr ast.Expr
+	isSend   bool
 	doneLike bool
 	comm     func(ch string) string // the comm clause text with the channel expression replaced by ch
 	body     []ast.Stmt
@@ -481,6 +661,7 @@ func (r *rw) rewriteSelect(sel *ast.SelectStmt, label string) string {
 		k.body = cc.Body
 		switch s := cc.Comm.(type) {
 		case *ast.SendStmt:
+			k.isSend = true
 			k.chanExpr = s.Chan
 			val := r.emit(s.Value)
 			k.comm = func(ch string) string { return ch + " <- " + val }
@@ -535,12 +716,22 @@ func (r *rw) rewriteSelect(sel *ast.SelectStmt, label string) string {
 	bodies := make([]string, n)
 	for i, k := range cases {
 		bodies[i] = r.emitStmts(k.body)
+		if r.cfg.HB && !k.isSend {
+			bodies[i] = "vsched.HBAcquire(" + chans[i] + ")\n" + bodies[i]
+		}
 	}
 	defText := ""
 	if hasDefault {
 		defText = r.emitStmts(defBody)
 	}
 	fmt.Fprintf(&b, "vsched.Yield(%s)\n", q(site))
+	if r.cfg.HB {
+		for i, k := range cases {
+			if k.isSend {
+				fmt.Fprintf(&b, "vsched.HBRelease(%s)\n", chans[i])
+			}
+		}
+	}
 	if n == 1 {
 		// a single communication: plain operation
 		if hasDefault {
